@@ -154,6 +154,7 @@ def run_scenario(case, schedule):
                 conn.options.compression_enabled = True
                 conn.options.compression_threshold = t
                 rec.c2s_compressed = True
+                rec.s2c_threshold = t
             if secret is not None:
                 cipher = encryption.create_AES_cipher(secret)
                 e, d = cipher.encryptor(), cipher.decryptor()
@@ -163,6 +164,35 @@ def run_scenario(case, schedule):
                     conn.file_object, d)
                 rec.enable_encryption(secret)
             link = world.links[0]
+            nf = list(case.get('net_forced') or ())
+            if nf:
+                # the peer sends len(nf) packets; an ordinary INCOMING
+                # listener answers each at once with a forced write - on the
+                # networking thread, in its read phase (write lock not
+                # held), while the user threads write too
+                tn = len(programs)
+                seen_in = []
+
+                def answer(p):
+                    if p.id != 0x7B:
+                        return
+                    k_ = len(seen_in)
+                    seen_in.append(1)
+                    pk = P1.raw_class(0x05)()
+                    pk.data = payload(tn, k_, nf[k_ % len(nf)])
+                    s0 = world.next_seq()
+                    try:
+                        conn.write_packet(pk, force=True)
+                        res['ops'].append((tn, 'f', k_, s0,
+                                           world.next_seq(), None))
+                    except Exception as ex:
+                        res['ops'].append((tn, 'f', k_, s0,
+                                           world.next_seq(),
+                                           type(ex).__name__))
+                from minecraft.networking.packets import Packet as _P
+                conn.register_packet_listener(answer, _P)
+                for _ in nf:
+                    rec.send_frame(0x7B, b'go')
             conn._start_network_thread()
 
             def make(ti, prog):
@@ -434,6 +464,9 @@ def check(ctx, case, schedule, r):
 
 def case_size(case, ti, k):
     """payload size of packet k of thread ti as the program says"""
+    if ti >= len(case['programs']):
+        nf = case['net_forced']
+        return nf[k % len(nf)]
     n = 0
     for op in case['programs'][ti]:
         if op[0] in ('q', 'f'):
@@ -569,6 +602,10 @@ SMALL = [
      'mode': 'plain'},
     {'programs': [[('fx',), ('q', 9), ('q', 10)], [('q', 7), ('f', 12)]],
      'mode': 'plain'},
+    {'programs': [[('f', 70), ('f', 9)], [('q', 8)]], 'mode': 'plain',
+     'net_forced': [12, 66]},
+    {'programs': [[('f', 70), ('d', False)]], 'mode': 'c64',
+     'net_forced': [70]},
     {'programs': [[('f', 8), ('q', 9), ('d', 1), ('rc',)]],
      'mode': 'c64'},
     # another thread's forced writes around a reconnect (whoever waits for
@@ -632,11 +669,13 @@ def case_strategy(fine):
         if disc is not None:
             progs[-1] = progs[-1] + [('d', disc)]
         return {'programs': progs, 'mode': mode, 'fine': fine}
-    return st.tuples(
+    return st.tuples(st.tuples(
         st.lists(program_strategy(False), min_size=1, max_size=4),
         st.one_of(st.none(), st.sampled_from(IMMEDIATES)),
         st.sampled_from(['plain', 'c0', 'c64', 'cipher', 'both']),
-        st.sampled_from([0, 0, 0, 40, 320])).map(build)
+        st.sampled_from([0, 0, 0, 40, 320])).map(build),
+        st.sampled_from([None, None, [9], [70, 8]])).map(
+            lambda t: dict(t[0], net_forced=t[1]) if t[1] else t[0])
 
 
 def t_random(ctx, n, fine):
